@@ -32,6 +32,7 @@ def run(ctx):
     ob3 = ctx.ob("C11.3", "single access: write data and byte enables are latched together with the address under the same strobe and used by the "
                           "single-write state", 2)
     ob4 = ctx.ob("C11.4", "address: avalon.address - (base_address >> log2(bytes)) on the direct and on the latched path", 2)
+    converted_widths(ctx, ob4)
     for mbl in (16, 8):
         v = av_view(ctx, mbl)
         fs = v.fsms("")
@@ -168,3 +169,38 @@ def run(ctx):
         if not direct or key(nk(direct[0].value)) != want or la != want:
             ob4.refute("address", "command address is %s (direct) / %s (latched), expected avalon.address - (base_address >> 2) for a 32-bit port" % ([key(nk(l.value)) for l in direct], la), None)
     ctx.assume("stall interleavings and data values are not decided; the width-adjusting converter in front of the bridge is covered by C07")
+
+
+def converted_widths(ctx, ob4):
+    """with a width converter in front, every register that carries the command address is as wide as the address of the port it drives"""
+    for aw, pw, what in ((32, 64, "narrower Avalon bus (up-conversion)"), (64, 32, "wider Avalon bus (down-conversion)")):
+        v = elab(ctx, AV, "LiteDRAMAvalonMM2Native", kwargs={"avalon": pobj("avalon"), "port": pobj("port"), "max_burst_length": Const(16), "base_address": Sym("base_address"),
+                                                             "burst_increment": Sym("burst_increment")},
+                 overrides={"len(avalon.writedata)": Const(aw), "len(port.wdata.data)": Const(pw), "port.data_width": Const(pw), "port.mode": Const("both")})
+        ports = [o for o in v.d.objs if o.cls == "LiteDRAMNativePort" and o.kind != "param"]
+        if not ob4.need(len(ports) == 1, "%s: bus-side port of the converter not found" % what):
+            continue
+        np_ = ports[0]
+        paw = np_.kwargs.get("address_width")
+        srcs = {}
+        for l in v.leaves:
+            if l.kind == "assign" and key(l.target) == str(np_) + ".cmd.addr":
+                for t_ in subterms(l.value):
+                    if isinstance(t_, Obj) and t_.cls == "Signal" and t_.kind == "prim" and "." not in str(t_):
+                        srcs[str(t_)] = t_
+        # registers feeding those sources through the command FIFO / latches
+        for l in v.leaves:
+            if l.kind in ("assign", "nextvalue") and isinstance(l.target, Obj) and str(l.target) in srcs:
+                pass
+        regs = {}
+        for nm, o in srcs.items():
+            if any(d.domain.startswith("sync") or d.kind == "nextvalue" for d in v.drivers(o)):
+                regs[nm] = o
+        ob4.instance("%s: address registers" % what, {nm: key(o.args[0]) if o.args else None for nm, o in regs.items()})
+        if not ob4.need(bool(regs), "%s: no register carries the command address" % what):
+            continue
+        for nm, o in regs.items():
+            w = o.args[0] if o.args else o.kwargs.get("bits_sign")
+            if w is None or (lin_ge(w, paw) is not True and key(w) != key(paw)):
+                ob4.refute("addr-reg-width:%s" % nm, "%s: the address register %s is %s bits wide but drives the command address of a port with %s address bits: the top "
+                           "address bits of a burst are lost (bursts land in the lower part of the memory)" % (what, nm, key(w) if w is not None else None, key(paw)), o.loc)
